@@ -311,7 +311,10 @@ func (w *Writer) WriteAttachment(a *Attachment) error {
 	if err != nil {
 		return fmt.Errorf("failed to write attachment metadata: %w", err)
 	}
-	bytesWritten, err := io.Copy(crcWriter, a.Data)
+	var bytesWritten int64
+	if a.Data != nil { // no reader at all is an attachment without data
+		bytesWritten, err = io.Copy(crcWriter, a.Data)
+	}
 	if err != nil {
 		return fmt.Errorf("failed to write attachment data: %w", err)
 	}
